@@ -10,7 +10,6 @@ import math
 
 import numpy as np
 
-from coqbridge import fl
 
 PROP = "C11"
 THEOREM_FILE = "Props/C11.v"
@@ -34,6 +33,24 @@ ASSUMPTIONS = ["dt is a whole number of seconds > 0 (TimeKeeper), dx, dy > 0, D,
 
 MODES = ["none", "h", "v", "hv", "hv+w", "none+w", "h+w", "v+w"]
 START, STOP = "2020-01-01 00:00:00", "2023-01-01 00:00:00"
+
+
+def fl(x):
+    """a finite float as [mantissa, binary exponent], x == mantissa * 2**exponent exactly (Corr/C11.v: mkF)"""
+    n, d = float(x).as_integer_ratio()
+    e = 1 - d.bit_length()
+    while n != 0 and n % 2 == 0 and e >= 0:
+        n //= 2
+        e += 1
+    return [n, e]
+
+
+def short(x, bits=12):
+    """x rounded to a float with a `bits`-bit mantissa (keeps the rationals in Coq small)"""
+    if x == 0.0:
+        return 0.0
+    m, e = math.frexp(x)
+    return math.ldexp(round(m * (1 << bits)), e - bits)
 
 
 # ---- stub modules ------------------------------------------------------------------------------
@@ -89,7 +106,7 @@ def mode_flags(mode):
 
 # ---- generators ----------------------------------------------------------------------------------
 def logu(rng, lo, hi):
-    return 10.0 ** rng.uniform(lo, hi)
+    return short(10.0 ** rng.uniform(lo, hi))
 
 
 def gen_params(rng, mode):
@@ -166,8 +183,8 @@ def run_small(desc, seed):
     sd, sdz = scales(D, Dz, dt)
     dx, dy = np.array(desc["dx"]), np.array(desc["dy"])
     # advective velocities on the scale of the diffusive ones (or an arbitrary scale when that is off)
-    us = sd if sd > 0 else 0.01
-    ws = sdz if sdz > 0 else 0.001
+    us = short(sd) if sd > 0 else 0.0078125
+    ws = short(sdz) if sdz > 0 else 0.0009765625
     u, v = np.array(desc["uf"]) * us, np.array(desc["vf"]) * us
     w = np.array(desc["wf"]) * ws
     cz = sdz * dt
@@ -298,7 +315,7 @@ def eval_cloud(desc, ctx):
     p = np.arange(N)
     dx = desc["dx0"] * (1.0 + (p % 4) / 4.0)
     dy = desc["dy0"] * (1.0 + (p % 3) / 2.0)
-    ws = sdz if sdz > 0 else 0.001
+    ws = short(sdz) if sdz > 0 else 0.0009765625
     w = np.full(N, desc["wf"] * ws)
     cz = sdz * dt
     z0 = np.full(N, 16.0 * cz * math.sqrt(steps) + 2.0 * steps * abs(desc["wf"] * ws) * dt)
